@@ -264,6 +264,19 @@ class SymbolicExpression(Generic[T], ABC):
         return conditions_root
 
     @property
+    def _stands_as_condition_(self) -> bool:
+        """
+        Whether the truth of this expression's value decides something: it is an operand of a logical operator, or it is
+        the whole condition of a query - the outermost one or one nested in another expression.
+        """
+        parent = self._parent_
+        return (
+            isinstance(parent, LogicalOperator)
+            or (isinstance(parent, QueryObjectDescriptor) and parent._child_ is self)
+            or self is self._conditions_root_
+        )
+
+    @property
     def _root_(self) -> SymbolicExpression:
         """
         Get the root of the symbolic expression tree.
@@ -1005,10 +1018,7 @@ class Variable(CanBehaveLikeAVariable[T]):
             # The truth of the bound value only matters where the variable is used as a condition. As an operand
             # (of a comparator, an attribute access, ...) a falsy value such as 0 is a value like any other.
             is_false = False
-            if (
-                isinstance(self._parent_, LogicalOperator)
-                or self is self._conditions_root_
-            ):
+            if self._stands_as_condition_:
                 is_false = not bool(sources[self._id_])
                 self._is_false_ = is_false
             yield OperationResult(sources, is_false, self)
@@ -1086,10 +1096,7 @@ class Variable(CanBehaveLikeAVariable[T]):
         # The truth of the result only matters where this call stands as a condition. As an operand (of a comparator,
         # of another call, ...) a falsy result such as 0 or False is a value like any other.
         is_false = False
-        if (
-            isinstance(self._parent_, LogicalOperator)
-            or self is self._conditions_root_
-        ):
+        if self._stands_as_condition_:
             is_false = not bool(instance)
         return OperationResult(values, is_false, self)
 
@@ -1226,7 +1233,7 @@ class DomainMapping(CanBehaveLikeAVariable[T], ABC):
         :return: Whether the result that carries the value is to be flagged false.
         """
         is_false = False
-        if isinstance(self._parent_, LogicalOperator) or self is self._conditions_root_:
+        if self._stands_as_condition_:
             is_false = not bool(value)
             self._is_false_ = is_false
         return is_false
